@@ -15,7 +15,9 @@
 (* I-level (shaped like the code, re-derived from manager.go):                               *)
 (*   idx  : Manager.switchIndex                                                             *)
 (*   gen  : Manager.namespaces[2], each a map namespace -> version                          *)
-(*   udir : Manager.users[2], here the abstract content (set of triples)                     *)
+(*   udir : Manager.users[2], the abstract content (set of triples) a correct directory holds *)
+(*   cdir : Manager.users[2] as the code keeps it: password list per user, and a map           *)
+(*          "user:password" -> namespace whose keys are split again on every ':' when cleared   *)
 (*   flag : Manager.reloadPrepared                                                           *)
 (*   ReloadNamespacePrepare(cfg): new = copy(gen[idx]); new[n] = cfg; gen[1-idx] = new;       *)
 (*        udir[1-idx] = clone(udir[idx]) rebuilt for n; flag = TRUE                          *)
@@ -26,35 +28,36 @@
 (*        (flag untouched)                                                                    *)
 (*   GetNamespace(n) / CheckUser / CheckPassword / GetNamespaceByUser: read generation idx   *)
 (* Every action is one whole operation (the interleavings of the property are               *)
-(* interleavings of operations).  ReloadSteps.tla splits the operations into their shared-   *)
+(* interleavings of operations).  Reload_lin.tla splits the operations into their shared-    *)
 (* memory accesses for truly concurrent administrators.                                      *)
 (*                                                                                          *)
 (* Fixed = TRUE models the proposed repair (out/proposed_fixes/C31-1.diff): commit only for  *)
 (* the namespace of the pending prepare, delete cancels a pending prepare.                   *)
-EXTENDS Integers, Sequences, FiniteSets
+EXTENDS ReloadP
 
-CONSTANTS NS,            \* namespace names
-          NV,            \* configuration versions 1..NV of every namespace
+CONSTANTS
           Scenarios,     \* credential scenarios (C29): which users a configuration carries
           CredOf(_,_,_), \* CredOf(scenario, n, v) = set of <<user, password>> of configuration (n, v)
+          JoinKey(_,_),  \* the text user ":" password (getUserKey); strings are atomic in TLA+, so the three
+          SplitUser(_),  \*   string functions are tables instantiated for the universe of the run:
+          SplitPw(_),    \*   SplitUser/SplitPw = first and second ':'-separated field of a key (getUserAndPasswordFromKey)
           InitActive,    \* set of initial maps namespace -> version (the namespaces loaded at start)
           Paired,        \* TRUE: every prepare(n) is immediately followed by commit(n) (a well-formed reload)
           Fixed          \* FALSE: the algorithm as it is in manager.go; TRUE: the proposed repair
 
-None    == 0
-Version == 1..NV
-Val     == Version \cup {None}
 
 VARIABLES sc,        \* the credential scenario of this behaviour (never changes)
           pactive,   \* P
           plast,     \* P
           idx, gen, udir, flag,   \* I
+          cdir,      \* I: Manager.users[2] shaped like the code: users = {<<user, password>>} (UserManager.users),
+                     \*    keys = {<<key text, namespace>>} (UserManager.userNamespaces)
           pname,     \* I (Fixed only): the namespace the pending prepare belongs to
           last       \* the last operation, its outcome, and whether the P-level permits that outcome
 
 pvars == <<pactive, plast>>
-ivars == <<idx, gen, udir, flag, pname>>
-vars  == <<sc, pactive, plast, idx, gen, udir, flag, pname, last>>
+ivars == <<idx, gen, udir, cdir, flag, pname>>
+vars  == <<sc, pactive, plast, idx, gen, udir, cdir, flag, pname, last>>
 
 (* Credentials of different namespaces never share a <<user, password>> pair ("passwords     *)
 (* unique per name, as the control plane requires"); user names may be shared.               *)
@@ -73,12 +76,31 @@ AuthIn(d, u, p) == LET m == {t \in d : t[2] = u /\ t[3] = p}
                    IN IF m = {} THEN "" ELSE (CHOOSE t \in m : TRUE)[1]
 KnownUser(d, u) == \E t \in d : t[2] = u
 
+(* the directory as UserManager keeps it: addNamespaceUsers / ClearNamespaceUsers / CheckUser+CheckPassword /  *)
+(* GetNamespaceByUser; Session.Handshake then refuses a namespace that does not exist (IsAllowConnect)          *)
+CEmpty == [users |-> {}, keys |-> {}]
+CAdd(d, s, n, v) ==
+    LET cs == IF v = None THEN {} ELSE CredOf(s, n, v)
+        ks == {JoinKey(c[1], c[2]) : c \in cs}
+    IN [users |-> d.users \cup cs,
+        keys  |-> {kv \in d.keys : kv[1] \notin ks} \cup {<<k, n>> : k \in ks}]
+CClear(d, n) ==
+    LET ks == {kv \in d.keys : kv[2] = n}
+    IN [users |-> d.users \ {<<SplitUser(kv[1]), SplitPw(kv[1])>> : kv \in ks},
+        keys  |-> d.keys \ ks]
+CRebuild(d, s, n, v) == CAdd(CClear(d, n), s, n, v)
+CAuthIn(d, vis, u, p) ==
+    IF <<u, p>> \notin d.users THEN ""
+    ELSE LET m == {kv \in d.keys : kv[1] = JoinKey(u, p)}
+         IN IF m = {} THEN "" ELSE LET n == (CHOOSE kv \in m : TRUE)[2] IN IF vis[n] = None THEN "" ELSE n
+
 PTriples   == Triples(sc, pactive)
 PAuth(u,p) == AuthIn(PTriples, u, p)
 
 (* what a session sees in the implementation *)
 Visible      == gen[idx]
 IAuth(u, p)  == AuthIn(udir[idx], u, p)
+CAuth(u, p)  == CAuthIn(cdir[idx], gen[idx], u, p)
 Lookup(n)    == gen[idx][n]
 
 -----------------------------------------------------------------------------------
@@ -98,6 +120,10 @@ Init == /\ sc \in Scenarios
         /\ idx = 0
         /\ gen = [i \in {0, 1} |-> IF i = 0 THEN pactive ELSE [n \in NS |-> None]]
         /\ udir = [i \in {0, 1} |-> IF i = 0 THEN Triples(sc, pactive) ELSE {}]
+        /\ cdir = [i \in {0, 1} |-> IF i = 0
+                       THEN [users |-> UNION {IF pactive[n] = None THEN {} ELSE CredOf(sc, n, pactive[n]) : n \in NS},
+                             keys  |-> {<<JoinKey(t[2], t[3]), t[1]>> : t \in Triples(sc, pactive)}]
+                       ELSE CEmpty]
         /\ flag = FALSE
         /\ pname = ""
         /\ last = [op |-> "init", n |-> "", v |-> None, out |-> "ok", allowed |-> TRUE]
@@ -113,6 +139,7 @@ OutOf(o) == CASE o.op = "prepare" -> "ok"
 IPrepare(n, v) ==
     /\ gen'  = [gen  EXCEPT ![1 - idx] = [gen[idx] EXCEPT ![n] = v]]
     /\ udir' = [udir EXCEPT ![1 - idx] = Rebuild(udir[idx], sc, n, v)]
+    /\ cdir' = [cdir EXCEPT ![1 - idx] = CRebuild(cdir[idx], sc, n, v)]
     /\ flag' = TRUE
     /\ pname' = n
     /\ idx' = idx
@@ -121,12 +148,13 @@ ICommit(n) ==
     IF CommitRefused(n) THEN UNCHANGED ivars
     ELSE /\ flag' = FALSE
          /\ idx' = 1 - idx          \* the switch happens before the nil dereference
-         /\ UNCHANGED <<gen, udir, pname>>
+         /\ UNCHANGED <<gen, udir, cdir, pname>>
 
 IDelete(n) ==
     IF gen[idx][n] = None THEN UNCHANGED ivars
     ELSE /\ gen'  = [gen  EXCEPT ![1 - idx] = [gen[idx] EXCEPT ![n] = None]]
          /\ udir' = [udir EXCEPT ![1 - idx] = Clear(udir[idx], n)]
+         /\ cdir' = [cdir EXCEPT ![1 - idx] = CClear(cdir[idx], n)]
          /\ idx' = 1 - idx
          /\ flag' = IF Fixed THEN FALSE ELSE flag
          /\ UNCHANGED pname
@@ -136,17 +164,7 @@ IStep(o) == CASE o.op = "prepare" -> IPrepare(o.n, o.v)
               [] o.op = "delete"  -> IDelete(o.n)
 
 -----------------------------------------------------------------------------------
-(* P-level: is outcome `out` of operation o permitted, and what is visible afterwards.        *)
-(* PAfter is a function of the visible state before, plast, the operation and its outcome:    *)
-(* it is the step relation the property text states, usable on any observed pair of states.   *)
-PAllowed(pl, o, out) == (o.op = "commit" /\ out = "ok") => pl[o.n] # None
-PAfter(act, pl, o, out) ==
-    IF out # "ok" THEN act
-    ELSE CASE o.op = "prepare" -> act
-           [] o.op = "commit"  -> IF pl[o.n] # None THEN [act EXCEPT ![o.n] = pl[o.n]] ELSE act
-           [] o.op = "delete"  -> [act EXCEPT ![o.n] = None]
-PLastAfter(pl, o, out) == IF o.op = "prepare" /\ out = "ok" THEN [pl EXCEPT ![o.n] = o.v] ELSE pl
-
+(* P-level: PAllowed / PAfter / PLastAfter are in ReloadP.tla (shared with the trace specifications) *)
 PStep(o, out) == /\ pactive' = PAfter(pactive, plast, o, out)
                  /\ plast'   = PLastAfter(plast, o, out)
 
@@ -195,6 +213,8 @@ OneGeneration == udir[idx] = Triples(sc, gen[idx])
 (* C29: authentication is exactly the reference directory ... *)
 AuthUniverse == UNION {CredOf(sc, n, v) : n \in NS, v \in Version}
 UsersRefine  == \A c \in AuthUniverse : IAuth(c[1], c[2]) = PAuth(c[1], c[2])
+(* the same for the directory as the code keeps it (joined keys, split on every ':') *)
+CodeUsersRefine == \A c \in AuthUniverse : CAuth(c[1], c[2]) = PAuth(c[1], c[2])
 (* ... and an operation on namespace n changes only n's triples *)
 OnlyOwnTriples == [][\A t \in (udir[idx] \cup udir'[idx']) :
                         (t \in udir[idx]) # (t \in udir'[idx']) => t[1] = last'.n]_vars
